@@ -130,6 +130,17 @@ Definition run_leaf (fields : list str) : list str :=
                          end
         | None => BAD
         end
+      else if tag_is tag [116;121;112;101]%N then   (* "type" platform expr: static type *)
+        match take_platform args with
+        | Some (p, r) => match parse (S (length r)) r with
+                         | Some (e, _) => match type_of_arm p e with
+                                          | Some t => [[84%N]; base_str (t_base t); sign_str (t_sign t)]
+                                          | None => BAD
+                                          end
+                         | None => BAD
+                         end
+        | None => BAD
+        end
       else if tag_is tag [99;111;110;118]%N then
         match take_platform args with
         | Some (p, r) =>
